@@ -161,4 +161,47 @@ example : drawSeed [.chunk (List.replicate 10 7), .chunk [], .chunk (List.replic
     = some (List.replicate 10 7 ++ List.replicate 12 8 ++ List.replicate 10 9, [.fail]) := by decide
 example : drawSeed [.chunk (List.replicate 31 7), .fail] = none := by decide
 
+/-! Entropy failure along whole derivation histories. -/
+
+/-- One attenuation step that returns a token was given a source delivering at least 32 bytes. -/
+theorem derive_append_ok_source_enough (S : SigScheme) (e e' : BiscuitMsg) (block : Bytes) (rng : Rng)
+    (h : derive true S e (.append block rng) = .ok e') : delivered rng ≥ 32 := by
+  simp only [derive] at h
+  cases ha : appendEnvelopeWith true S e block rng with
+  | error r => rw [ha] at h; cases h
+  | ok p =>
+    obtain ⟨e'', rng'⟩ := p
+    obtain ⟨_, seed, _, _, hd, _⟩ := appendEnvelopeWith_ok true S e block rng rng' e'' ha
+    apply Nat.le_of_not_lt
+    intro hlt
+    rw [short_source_fails rng hlt] at hd
+    cases hd
+
+/-- **C20 along histories.** A derivation history (appends with their own sources, seals,
+reloads) returns a token only if *every* attenuation in it was given a source that delivered
+at least 32 bytes: one source running dry anywhere in the history and no token comes out. -/
+theorem history_ok_all_sources_enough (S : SigScheme) (e0 e : BiscuitMsg) (ops : List DeriveOp)
+    (h : deriveAll true S e0 ops = .ok e) (block : Bytes) (rng : Rng)
+    (hm : DeriveOp.append block rng ∈ ops) : delivered rng ≥ 32 := by
+  induction ops generalizing e0 with
+  | nil => cases hm
+  | cons op ops ih =>
+    simp only [deriveAll] at h
+    cases hd : derive true S e0 op with
+    | error r => rw [hd] at h; cases h
+    | ok e1 =>
+      rw [hd] at h
+      rcases List.mem_cons.1 hm with heq | hin
+      · subst heq
+        exact derive_append_ok_source_enough S e0 e1 block rng hd
+      · exact ih e1 h hin
+
+/-- Contrapositive, as the property states it: a short source anywhere makes the history fail. -/
+theorem history_short_source_fails (S : SigScheme) (e0 : BiscuitMsg) (ops : List DeriveOp)
+    (block : Bytes) (rng : Rng) (hm : DeriveOp.append block rng ∈ ops) (hs : delivered rng < 32) :
+    ∃ r, deriveAll true S e0 ops = .error r := by
+  cases h : deriveAll true S e0 ops with
+  | error r => exact ⟨r, rfl⟩
+  | ok e => exact absurd (history_ok_all_sources_enough S e0 e ops h block rng hm) (Nat.not_le.2 hs)
+
 end Biscuit.C20
